@@ -61,6 +61,7 @@ TYPES = [
         F("leaf", R("Leaf"), default="{\"a\":1}"), F("u", R("U"), default="{\"int\":3}"),
         F("e", R("Color"), default="\"GREEN\""), F("f", R("F2"), default="\"ab\""), F("t", R("TrStr"), default="\"x\""),
         F("req", P("int32"))]),
+    record("DefOuter", [F("inner", R("DefPrims")), F("n", P("int32"), default="3"), F("oinner", R("DefPrims"), optional=True)]),
     record("KeyPart", [F("id", P("string")), F("n", P("int64"))]),
     record("KeyParams", [F("p", P("string"))]),
     named("complexKey", "CK", Key={"name": "KeyPart", "namespace": NS}, Params={"name": "KeyParams", "namespace": NS}),
@@ -233,6 +234,12 @@ if __name__ == "__main__":
                 if k == "enum": print('\t"%s": reflect.TypeOf(vt.%s(0)),' % (n, n))
                 elif k == "typeref": print('\t"%s": reflect.TypeOf(vt.%s(%s)),' % (n, n, '""' if d["type"] == "string" else "0"))
                 else: print('\t"%s": reflect.TypeOf(vt.%s{}),' % (n, n))
+        print("}")
+        print("\n// constructors of default instances (only generated for records that declare a default themselves)\nvar defaultCtors = map[string]func() any{")
+        for t in TYPES:
+            for k, d in t.items():
+                if k == "record" and any("defaultValue" in f for f in d["fields"]):
+                    print('\t"%s": func() any { return vt.New%sWithDefaultValues() },' % (d["name"], d["name"]))
         print("}")
     elif sys.argv[1] == "tla":
         sys.stdout.write(schemas_tla())
